@@ -165,8 +165,11 @@ def _same(I, x, y):
     return I.eq(x, y)
 
 
-def ensure_wf(V, m, ghost, label):
+def ensure_wf(V, m, ghost, label, skip=()):
     for l, f in wf(V, m, ghost, label):
+        if any(s_ in l for s_ in skip):
+            V.ensure(l, z3.BoolVal(True))          # clause not applicable to this pre-state (kept so that the label set is stable)
+            continue
         V.ensure(l, f)
 
 
